@@ -23,6 +23,9 @@ type errManyToManyMatch struct {
 	sampleID          uint64
 	duplicateSampleID uint64
 	side              binOpSide
+	// multipleMatches is set when several pairs of one match group produce the same
+	// result series; it holds the message of the reference engine for that case.
+	multipleMatches string
 }
 
 func newManyToManyMatchError(sampleID, duplicateSampleID uint64, side binOpSide) *errManyToManyMatch {
@@ -33,12 +36,37 @@ func newManyToManyMatchError(sampleID, duplicateSampleID uint64, side binOpSide)
 	}
 }
 
-type outputSample struct {
-	lhT        int64
-	rhT        int64
-	lhSampleID uint64
-	rhSampleID uint64
-	v          float64
+func newMultipleMatchesError(card parser.VectorMatchCardinality) *errManyToManyMatch {
+	msg := "multiple matches for labels: grouping labels must ensure unique matches"
+	if card == parser.CardOneToOne {
+		msg = "multiple matches for labels: many-to-one matching must be explicit (group_left/group_right)"
+	}
+	return &errManyToManyMatch{multipleMatches: msg}
+}
+
+// joinIndex relates the series of both operands to match groups (series with the same
+// matching signature) and to output series.
+type joinIndex struct {
+	// highGroup maps a series ID of the high cardinality ("many") side to its match
+	// group, or to -1 if no low cardinality series has the same signature.
+	highGroup []int
+	// lowGroup maps a series ID of the low cardinality ("one") side to its match group.
+	lowGroup []int
+	// lowPos is the position of a low cardinality series inside its match group.
+	lowPos []int
+	// highOut maps a high cardinality series ID and the position of the matched low
+	// cardinality series to the output series ID of that pair.
+	highOut [][]uint64
+	// numGroups is the number of match groups.
+	numGroups int
+}
+
+// groupSample is the sample of the low cardinality side seen for a match group at a step.
+type groupSample struct {
+	t        int64
+	sampleID uint64
+	pos      int
+	v        float64
 }
 
 type table struct {
@@ -47,101 +75,103 @@ type table struct {
 	operation operation
 	card      parser.VectorMatchCardinality
 
-	outputValues []outputSample
-	// highCardOutputIndex is a mapping from series ID of the high cardinality
-	// operator to an output series ID.
-	// During joins, each high cardinality series that has a matching
-	// low cardinality series will map to exactly one output series.
-	highCardOutputIndex outputIndex
-	// lowCardOutputIndex is a mapping from series ID of the low cardinality
-	// operator to an output series ID.
-	// Each series from the low cardinality operator can join with many
-	// series of the high cardinality operator.
-	lowCardOutputIndex outputIndex
+	index *joinIndex
+	// groups holds, per match group, the low cardinality sample of the current step.
+	groups []groupSample
+	// outputT holds, per output series, the last step at which a sample was emitted.
+	outputT []int64
 }
 
 func newTable(
 	pool *model.VectorPool,
 	card parser.VectorMatchCardinality,
 	operation operation,
-	outputValues []outputSample,
-	highCardOutputCache outputIndex,
-	lowCardOutputCache outputIndex,
+	index *joinIndex,
+	numOutputs int,
 ) *table {
-	for i := range outputValues {
-		outputValues[i].lhT = -1
-		outputValues[i].rhT = -1
+	groups := make([]groupSample, index.numGroups)
+	for i := range groups {
+		groups[i].t = math.MinInt64
+	}
+	outputT := make([]int64, numOutputs)
+	for i := range outputT {
+		outputT[i] = math.MinInt64
 	}
 	return &table{
-		pool: pool,
-		card: card,
-
-		operation:           operation,
-		outputValues:        outputValues,
-		highCardOutputIndex: highCardOutputCache,
-		lowCardOutputIndex:  lowCardOutputCache,
+		pool:      pool,
+		card:      card,
+		operation: operation,
+		index:     index,
+		groups:    groups,
+		outputT:   outputT,
 	}
 }
 
+// execBinaryOperation joins the samples of one step, following the reference engine:
+// two samples with the same signature on the "one" side fail the step, each sample of
+// the "many" side is paired with the "one" side sample of its match group, and two
+// kept pairs of a group must not produce the same output series.
 func (t *table) execBinaryOperation(lhs model.StepVector, rhs model.StepVector, returnBool bool) (model.StepVector, *errManyToManyMatch) {
 	ts := lhs.T
 	step := t.pool.GetStepVector(ts)
+	// Nothing is going to match, and nothing is checked, if one side is empty.
+	if len(lhs.SampleIDs) == 0 || len(rhs.SampleIDs) == 0 {
+		return step, nil
+	}
 
-	lhsIndex, rhsIndex := t.highCardOutputIndex, t.lowCardOutputIndex
+	high, low, lowSide := lhs, rhs, rhBinOpSide
 	if t.card == parser.CardOneToMany {
-		lhsIndex, rhsIndex = rhsIndex, lhsIndex
+		high, low, lowSide = rhs, lhs, lhBinOpSide
 	}
 
-	for i, sampleID := range lhs.SampleIDs {
-		lhsVal := lhs.Samples[i]
-		outputSampleIDs := lhsIndex.outputSamples(sampleID)
-		for _, outputSampleID := range outputSampleIDs {
-			if t.card != parser.CardManyToOne && t.outputValues[outputSampleID].lhT == ts {
-				prevSampleID := t.outputValues[outputSampleID].lhSampleID
-				return model.StepVector{}, newManyToManyMatchError(prevSampleID, sampleID, lhBinOpSide)
-			}
-
-			t.outputValues[outputSampleID].lhSampleID = sampleID
-			t.outputValues[outputSampleID].lhT = lhs.T
-			t.outputValues[outputSampleID].v = lhsVal
+	for i, sampleID := range low.SampleIDs {
+		group := &t.groups[t.index.lowGroup[sampleID]]
+		if group.t == ts {
+			return model.StepVector{}, newManyToManyMatchError(sampleID, group.sampleID, lowSide)
 		}
+		group.t = ts
+		group.sampleID = sampleID
+		group.pos = t.index.lowPos[sampleID]
+		group.v = low.Samples[i]
 	}
 
-	for i, sampleID := range rhs.SampleIDs {
-		rhVal := rhs.Samples[i]
-		outputSampleIDs := rhsIndex.outputSamples(sampleID)
-		for _, outputSampleID := range outputSampleIDs {
-			outputSample := t.outputValues[outputSampleID]
-			if rhs.T != outputSample.lhT {
-				continue
-			}
-			if t.card != parser.CardOneToMany && outputSample.rhT == rhs.T {
-				prevSampleID := t.outputValues[outputSampleID].rhSampleID
-				return model.StepVector{}, newManyToManyMatchError(prevSampleID, sampleID, rhBinOpSide)
-			}
-			t.outputValues[outputSampleID].rhSampleID = sampleID
-			t.outputValues[outputSampleID].rhT = rhs.T
-
-			outputVal, keep := t.operation([2]float64{outputSample.v, rhVal}, 0)
-			if returnBool {
-				outputVal = 0
-				if keep {
-					outputVal = 1
-				}
-			} else if !keep {
-				continue
-			}
-			step.SampleIDs = append(step.SampleIDs, outputSampleID)
-			step.Samples = append(step.Samples, outputVal)
+	for i, sampleID := range high.SampleIDs {
+		g := t.index.highGroup[sampleID]
+		if g < 0 {
+			continue
 		}
+		group := t.groups[g]
+		if group.t != ts {
+			continue
+		}
+
+		operands := [2]float64{high.Samples[i], group.v}
+		if t.card == parser.CardOneToMany {
+			operands = [2]float64{group.v, high.Samples[i]}
+		}
+		outputVal, keep := t.operation(operands, 0)
+		if returnBool {
+			outputVal = 0
+			if keep {
+				outputVal = 1
+			}
+		} else if !keep {
+			continue
+		}
+
+		outputSampleID := t.index.highOut[sampleID][group.pos]
+		if t.outputT[outputSampleID] == ts {
+			return model.StepVector{}, newMultipleMatchesError(t.card)
+		}
+		t.outputT[outputSampleID] = ts
+
+		step.SampleIDs = append(step.SampleIDs, outputSampleID)
+		step.Samples = append(step.Samples, outputVal)
 	}
 
 	return step, nil
 }
 
-// operands is a length 2 array which contains lhs and rhs.
-// valueIdx is used in vector comparison operator to decide
-// which operand value we should return.
 type operation func(operands [2]float64, valueIdx int) (float64, bool)
 
 var operations = map[string]operation{
